@@ -49,7 +49,10 @@ def _norm_cells(mask):
 class M(Model):
     ENV = "FlatPack"
     EPISODE_CAP = 60
-    DETERMINISTIC_CONFIGS = ("toyrot", "toynorot")
+
+    @property
+    def DETERMINISTIC_CONFIGS(self):
+        return (self.b.entry,) if type(self.env.generator).__name__.startswith("Toy") else ()
 
     def __init__(self, b):
         super().__init__(b)
